@@ -9,6 +9,7 @@ import (
 	"os"
 	"path/filepath"
 	"sync"
+	"sync/atomic"
 	"testing"
 	"time"
 
@@ -263,33 +264,42 @@ func throttleRound(r *vreport.Run, round int) {
 // ---- C20: antispam -------------------------------------------------------------------------------------------
 
 func antispamRound(r *vreport.Run, round int) {
-	threshold := 2 + round%3
+	threshold := 2 + round%2
 	a := antispam.NewAntispammer(&antispam.Options{MaintenanceInterval: time.Second, Threshold: threshold, UnbanIterations: 2,
 		Logger: vplug.FatalLogger(), MetricsController: metric.NewCtl("verif", prometheus.NewRegistry(), 0, 0)})
 	t0 := time.Unix(1700000000, 0)
 	var wg sync.WaitGroup
 	const G = 4
-	spam := make([]int, G)
+	// odd rounds: every source id carries the same source name (files with one name in different directories), so that
+	// the callers' ban-metric increments and the maintenance's deletion of a quiet source's series meet on one series
+	name := func(src string) string {
+		if round%2 == 1 {
+			return "n"
+		}
+		return "name-" + src
+	}
+	var stop atomic.Bool
 	for g := 0; g < G; g++ {
 		wg.Add(1)
 		go func(g int) {
 			defer wg.Done()
-			for i := 0; i < 10; i++ {
-				src := fmt.Sprint(1 + (i+g)%3)
-				if a.IsSpam(src, "name-"+src, false, []byte(`{"k":1}`), t0, nil) {
-					spam[g]++
-				}
+			for i := 0; i < 60; i++ {
+				// ever new sources that reach their threshold at once, then fall silent
+				src := fmt.Sprint(1000*g + i/threshold)
+				a.IsSpam(src, name(src), false, []byte(`{"k":1}`), t0, nil)
 			}
 		}(g)
 	}
-	wg.Add(1)
+	var mwg sync.WaitGroup
+	mwg.Add(1)
 	go func() {
-		defer wg.Done()
-		for i := 0; i < 3; i++ {
+		defer mwg.Done()
+		for !stop.Load() {
 			a.Maintenance()
-			time.Sleep(50 * time.Microsecond)
 		}
 	}()
 	wg.Wait()
-	count(G*10 + 3)
+	stop.Store(true)
+	mwg.Wait()
+	count(G * 60)
 }
